@@ -10,7 +10,7 @@ CHECKS = {
          "Trusts the harness' own table and u32 arithmetic; bases are a finite set (comparison depends only on d, which the enumeration shows for each base separately).",
          "DESIGN.md §3 C16"),
  "C06": ("model-based stateful PBT: generated histories of source updates / notifies / client steps / reconnects over the real rtr::Server and rtr::Client (in-memory sockets, paused-clock current_thread runtime) against a reference payload-history model",
-         "Exploration of generated histories (proptest, shrinking) with the oracle checked after every client step: data applied through PayloadTarget == source snapshot named by Client::state() restricted to the negotiated version, state and timing equality, failed steps apply nothing. Reaches version downgrade, diff vs reset vs cache-reset fallback, serial wrap, mid-response updates, which the example tests cannot.",
+         "Exploration of generated histories (proptest, shrinking) with the oracle checked after every client step: data applied through PayloadTarget == source snapshot named by Client::state() restricted to the negotiated version, state and timing equality, failed steps apply nothing. Reaches version downgrade, diff vs reset vs cache-reset fallback, serial wrap, mid-response updates, which the example tests cannot. The reference source also holds large items (provider lists to 4000, keys to 5000 octets) and tables of 1500-4000 origins, so single responses exceed 64 KiB.",
          "Single-threaded scheduler owned by the harness; reference source/model in rtrsim.rs is trusted; absence is not proven beyond the explored histories.",
          "DESIGN.md §3 C06"),
  "C07": ("round-trip + fault-injection PBT: generated PDUs / PDU sequences written and read back through every reader; every truncation point and header corruption against a reference model of the type/length/version rules; deterministic poll / byte / EOF-poll counters instead of timeouts; hand-written ASPA PDUs beyond the constructors' provider limit through every reader and through Client::update (three-valued: refused within the byte bound, or exact framing and exact providers)",
@@ -18,11 +18,11 @@ CHECKS = {
          "In-memory AsyncRead that never returns Pending; announced lengths above 1 MiB are not handed to allocating body readers (memory is not part of the statement); reference length rules from RFC 8210 / 8210bis as implemented.",
          "DESIGN.md §3 C07"),
  "C08": ("metamorphic + model PBT over schedules: generated client byte streams x fragmentations x notify interleavings against the real rtr::Server; output minus Serial Notify must equal the one-chunk no-notify reference run; independent PDU parser; exhaustive 2-chunk splits x notify positions for single-query streams",
-         "Exploration of generated schedules on a harness-owned single-threaded executor (settle points make the interleaving exactly the generated one) plus a complete enumeration of two-chunk splits with notify placements for 25 single-PDU streams.",
+         "Exploration of generated schedules on a harness-owned single-threaded executor (settle points make the interleaving exactly the generated one) plus a complete enumeration of two-chunk splits with notify placements for 25 single-PDU streams. Wrong query lengths include values right in their low 8/16/24 bits; the source's data includes large items and tables (64 KiB and more per response).",
          "Harness owns the scheduler (current_thread runtime); multi-threaded races are outside the statement; behaviour after the first malformed query is only compared metamorphically.",
          "DESIGN.md §3 C08"),
  "C13": ("PBT against an integer address-range model + exhaustive pairs/triples over a boundary-dense prefix domain; BTreeSet as reference for AS-number set algebra",
-         "Random exploration of every constructor / text / serde path with a model on integers, complete enumeration of all ordered pairs and triples over a boundary-dense domain of valid prefixes for covers / total-order / hash laws, random RouteOrigin triples and AS multisets with forced duplicates.",
+         "Random exploration of every constructor / text / serde path with a model on integers, complete enumeration of all ordered pairs and triples over a boundary-dense domain of valid prefixes for covers / total-order / hash laws, random RouteOrigin triples and AS multisets with forced duplicates. A further complete enumeration covers every pair of prefix lengths of a family x 5 base addresses x 5 bit relations.",
          "std::net address parsing/formatting and BTreeSet are trusted; the pair/triple domain is boundary-dense, not all prefixes.",
          "DESIGN.md §3 C13"),
  "C15": ("exhaustive small-domain enumeration of filter x payload combinations + random filter lists and whole files; reference drop predicate on integer address ranges; JSON round trip through all four serialiser forms; the file's JSON in foreign spellings (member order, white space, escapes) and from_reader over a piecewise reader",
@@ -34,7 +34,7 @@ CHECKS = {
          "The interval model and its bitmap self-test are trusted; inverted (min>max) pairs are generated only for text and DER, not for the unchecked in-memory constructors (documented as caller precondition).",
          "DESIGN.md §3 C03"),
  "C12": ("exhaustive enumeration over a small alphabet (all strings to length 7/9 into every parser, all ordered pairs and triples of accepted rsync URIs, all join arguments to length 6/8) + random structured URIs; oracles: text-level reference model of scheme/authority/module/path, reference equality, algebraic laws of join/parent/relative_to/is_parent_of",
-         "Complete enumeration of the stated small-alphabet domain (parse, pairs, triples, join) plus random exploration beyond it (long hosts, ports, mixed case, deep paths, forbidden and non-ASCII bytes). Three-valued acceptance oracle (must accept conventional authorities / must reject forbidden shapes / don't care) so the check never demands more than the statement. The random part includes hosts of 64-380 octets and path segments of 100-300 octets.",
+         "Complete enumeration of the stated small-alphabet domain (parse, pairs, triples, join) plus random exploration beyond it (long hosts, ports, mixed case, deep paths, forbidden and non-ASCII bytes). Three-valued acceptance oracle (must accept conventional authorities / must reject forbidden shapes / don't care) so the check never demands more than the statement. The random part includes hosts of 64-380 octets and path segments of 100-300 octets. A complete 'octets' enumeration puts every octet value at every kind of position of a URI and of a join argument.",
          "Reference model of the RFC 3986 subset documented in uri.rs; unusual-but-accepted authorities are don't-care for acceptance but must obey all laws once accepted.",
          "DESIGN.md §3 C12"),
  "C17": ("exhaustive enumeration: every day of years 1-9999 x boundary seconds (+ all seconds of selected days) against an independent days-from-civil calendar and renderer; all single/double (triple) substitutions, insertions, deletions over 40 valid time strings with a three-valued acceptance oracle; all (not-before, not-after, now) triples over boundary instants; serial pairs over boundary values + random serials and decimal strings",
@@ -46,7 +46,7 @@ CHECKS = {
          "RSA-SHA256 is trusted to reject modified signed bytes (flips confined to TBS bytes / signature value); chains are built with the library's own TbsCert builder (C05 decides builder/decoder agreement); private interval model in c01.rs.",
          "DESIGN.md §3 C01"),
  "C05": ("round-trip PBT per builder (certificate, CRL, manifest, ROA, ASPA, CSR, IdCert, signed message): decode(encode(built)) validates, re-encoding the decoded twin reproduces the bytes (outer object, to-be-signed part, inner content), accessor snapshots of built and decoded twin are identical and panic-free; independent TLV walk for list presence",
-         "Exploration of profile-conforming builder inputs (serial widths, both time encodings, URIs with/without trailing slash, resource sets of all shapes, unsorted/duplicate entry lists, up to 300 revoked / 40 files / 16380-bounded providers).",
+         "Exploration of profile-conforming builder inputs (serial widths, both time encodings, URIs with/without trailing slash, resource sets of all shapes, unsorted/duplicate entry lists, up to 300 revoked / 40 files / 16380-bounded providers). A 'big-lists' sub-check builds manifests of 65536 / 65537 / 70001 files (lists longer than a 16-bit counter can count).",
          "Generators stay inside the object profiles (whole seconds, non-empty provider sets without the customer, max-length within the family); Roa::process/Aspa::process read the wall clock and are only called for windows covering 2000..2200.",
          "DESIGN.md §3 C05"),
  "C09": ("round-trip PBT of notification/snapshot/delta values through every parser and reader-buffer size; XML-aware mutation fuzzing (in-process) of written and sample files; unbounded lazy byte streams with a counting reader against the per-element byte bound (exhaustive over offending-construct x position for header limits); model check of sort_and_verify_deltas / has_matching_origins; metamorphic re-spelling of written files (xmlrespell): equivalent XML parses to an equal value or is refused",
@@ -62,7 +62,7 @@ CHECKS = {
          "RSA-SHA256 and SHA-256 from aws-lc-rs are trusted (used directly, not through the library); tampering is confined to signed bytes / the signature value; der.rs has its own self-check sub-check.",
          "DESIGN.md §3 C02"),
  "C04": ("structure-aware mutation PBT (TLV tree mutations of valid seeds of all 15 entry points, strict and relaxed; every proper prefix of every seed; re-signed protocol messages with mutated CRLs; random bytes) with an accessor-walk oracle (every getter / iterator / validation / re-encoding under a panic guard) and a counting-allocator bound + coverage-guided libFuzzer target der_decoders with a DER-aware custom mutator and the same oracle",
-         "Exploration: any panic in a decoder or in any accessor of a decoded value is a violation; allocation calls and peak live bytes per input are bounded by a linear function of the input length (deterministic proxy for 'no run-away'); the quick tier also replays the committed corpus and runs a fixed-work libFuzzer burst, the thorough tier a 16-job campaign.",
+         "Exploration: any panic in a decoder or in any accessor of a decoded value is a violation; allocation calls and peak live bytes per input are bounded by a linear function of the input length (deterministic proxy for 'no run-away'); the quick tier also replays the committed corpus and runs a fixed-work libFuzzer burst, the thorough tier a 16-job campaign. Time values are also generated calendar-shaped from a number (any century, month 0-13, day 0 / 28-32, ...), not only taken from a table.",
          "CPU-only super-linear behaviour without allocation is only seen by the watchdog (exit 2); stack overflows / aborts are isolated by the driver's journal mode; the walk validates against test-data/ta.cer only.",
          "DESIGN.md §3 C04"),
  "C10": ("differential PBT: messages created by the library (every evaluation-time position, right key and 7 other keys, bit flips) and messages assembled by the independent DER writer (EE identity certificate and CRL variants, 0-4 extra signed attributes so the set spans 100-700 octets, at most one violated condition) against the accept-iff oracle; own CMS verifier for library-created messages; ProvisioningCms/PublicationCms create-decode-validate",
@@ -70,7 +70,7 @@ CHECKS = {
          "RSA/SHA from aws-lc-rs trusted; the created/protocol sub-checks read the wall clock only as the base of validity windows with margins of minutes; AKI/SKI mismatch cases are not generated (not named in the statement).",
          "DESIGN.md §3 C10"),
  "C14": ("PBT with manifests assembled by the independent DER writer (0-300 entries, ~60 hostile file-name shapes, hash bit strings of 0-64 octets with unused bits, both time orders/types) against the reference predicate ^[A-Za-z0-9_-]+\\.[A-Za-z]{3}$ + exhaustive enumeration of all names of length 0-5 over a 9-character alphabet",
-         "Exploration plus complete enumeration of short names: decode succeeds iff every name matches and thisUpdate <= nextUpdate; on success len/iter/iter_uris/hash verification are checked against what was encoded (URIs re-parse, lie directly inside the base directory).",
+         "Exploration plus complete enumeration of short names: decode succeeds iff every name matches and thisUpdate <= nextUpdate; on success len/iter/iter_uris/hash verification are checked against what was encoded (URIs re-parse, lie directly inside the base directory). Complete enumeration of every octet value at every kind of position of a file name; manifests of 255 ... 131075 entries (len() versus entries iterated; refusal allowed beyond 4096).",
          "Manifest::decode does not verify signatures, so the wrapper carries a constant signature value; with UTCTime manifest times only 'accepted => names valid and this <= next' is asserted.",
          "DESIGN.md §3 C14"),
 }
